@@ -548,7 +548,7 @@ func TestC08(t *testing.T) {
 	dir := outDir(t)
 	rep := newReport("C08", "matrix through the real rruntime/qruntime adapters (probe Controller / QController registered with a real Runtime): declaration sets (inputs by kind and by id of every input kind, exclusive/shared outputs) x "+
 		"operations (get, list, ctx, create with/without no-owner, update, modify with expected-phase/no-owner options, teardown/destroy with and without explicit owner, add/remove finalizer) x 8 targets owned by the controller, another owner or nobody, "+
-		"kind n1/T cached or not; compared: result class and the listing of all 6 kinds afterwards; non-trivial = the operation must be refused by confinement; distinct by case")
+		"kind n1/T cached or not; compared: result class and the listing of all 6 kinds afterwards; plus the output tracker: StartTrackingOutputs / CleanupOutputs over own, foreign, unowned, touched and finalizer-holding resources of the output kind, cached or not, compared with Tracker.cleanup; non-trivial = the operation must be refused by confinement; distinct by case")
 
 	var cases []accCase
 
